@@ -279,6 +279,10 @@ func (x *Exec) symbolsOf(s string, out map[string]bool, depth int) {
 		}
 		if d, ok := x.b.defs[n]; ok && len(d) < 4000 {
 			x.symbolsOf(d, out, depth-1)
+		} else if x.activeChild != nil {
+			if d, ok := x.activeChild.defs[n]; ok && len(d) < 4000 {
+				x.symbolsOf(d, out, depth-1)
+			}
 		}
 	}
 }
@@ -494,6 +498,8 @@ func (x *Exec) instantiate(ob *Obligation, hyps []qhyp, goalConjs []conj, replac
 		rounds = 1
 	}
 	sub := x.b.child()
+	x.activeChild = sub
+	defer func() { x.activeChild = nil }()
 	prevSize := -1
 	for round := 0; round < rounds; round++ {
 		// further rounds while instantiation keeps producing new candidate terms (chains such as
